@@ -2,8 +2,10 @@ package main
 
 import (
 	"fmt"
+	"os"
 	"go/token"
 	"go/types"
+	"math/big"
 	"sort"
 	"strings"
 
@@ -14,6 +16,11 @@ import (
 // ---------- resolver ----------
 
 type Resolver struct {
+	bigGlobals    map[*ssa.Global]*big.Int
+	implCache     map[string][]*ssa.Function
+	implOK        map[string]bool
+	methodsByName map[string][]*ssa.Function
+	nonNilGlobals map[*ssa.Global]bool
 	byName   map[string]*FuncSpec
 	wild     []wildSpec
 	allFuncs map[string]*ssa.Function
@@ -61,6 +68,7 @@ func newResolver(P *Program, db *SpecDB) *Resolver {
 		r.byName[q] = fs
 	}
 	sort.Slice(r.wild, func(i, j int) bool { return len(r.wild[i].prefix) > len(r.wild[j].prefix) })
+	r.findNonNilGlobals()
 	return r
 }
 
@@ -174,6 +182,25 @@ func inRepo(fn *ssa.Function) bool {
 	return fn != nil && fn.Pkg != nil && strings.HasPrefix(fn.Pkg.Pkg.Path(), modPath) || (fn != nil && fn.Pkg == nil && fn.Parent() != nil && inRepo(fn.Parent()))
 }
 
+// rootsAtStackAlloc: the address is inside a local variable that does not escape the function.
+func rootsAtStackAlloc(a ssa.Value) bool {
+	for {
+		switch x := a.(type) {
+		case *ssa.FieldAddr:
+			a = x.X
+		case *ssa.IndexAddr:
+			if _, isPtr := x.X.Type().Underlying().(*types.Pointer); !isPtr {
+				return false
+			}
+			a = x.X
+		case *ssa.Alloc:
+			return !x.Heap
+		default:
+			return false
+		}
+	}
+}
+
 func (ws *writeSet) add(o writeSet) {
 	if o.all {
 		ws.all = true
@@ -189,6 +216,16 @@ func (ws *writeSet) add(o writeSet) {
 func (e *Enc) instrWrites(ins ssa.Instruction, ws *writeSet, depth int, seen map[*ssa.Function]bool) {
 	switch v := ins.(type) {
 	case *ssa.Store:
+		if rootsAtStackAlloc(v.Addr) {
+			break
+		}
+		if rootAllocOf(v.Addr) != nil {
+			if ws.fresh == nil {
+				ws.fresh = map[string]bool{}
+			}
+			e.storeCompNames(v.Addr, ws.fresh) // initialisation of an object the writer allocated
+			break
+		}
 		e.storeCompNames(v.Addr, ws.names)
 	case *ssa.MapUpdate:
 		e.mapCompNames(v.Map.Type().Underlying().(*types.Map), ws.names)
@@ -204,6 +241,10 @@ func (e *Enc) instrWrites(ins ssa.Instruction, ws *writeSet, depth int, seen map
 	}
 }
 
+// callWrites accumulates into ws the heap components a call may write, transitively: contracts
+// (assigns clauses) where they exist, otherwise the bodies of repository functions (every function
+// visited once: the result is the union over everything reachable), interface calls resolved by
+// class-hierarchy analysis, external code by the external-frame rule.
 func (e *Enc) callWrites(c *ssa.CallCommon, ws *writeSet, depth int, seen map[*ssa.Function]bool) {
 	if b, ok := c.Value.(*ssa.Builtin); ok {
 		switch b.Name() {
@@ -220,43 +261,66 @@ func (e *Enc) callWrites(c *ssa.CallCommon, ws *writeSet, depth int, seen map[*s
 		}
 		return
 	}
-	var spec *FuncSpec
-	var callee *ssa.Function
 	if c.IsInvoke() {
-		spec = e.R.forMethod(c.Method)
-	} else {
-		callee = c.StaticCallee()
-		if callee == nil {
-			if mc, ok := c.Value.(*ssa.MakeClosure); ok {
-				callee = mc.Fn.(*ssa.Function)
-			}
+		if spec := e.R.forMethod(c.Method); spec != nil {
+			e.specWrites(spec, c.Signature(), nil, ws)
+			return
 		}
-		if callee != nil {
-			if isLockNoop(callee.String()) {
+		cands, ok := e.R.implementations(c.Value.Type(), c.Method)
+		if !ok {
+			ws.all = true
+			return
+		}
+		for _, cand := range cands {
+			e.funcWrites(cand, c, ws, depth, seen)
+			if ws.all {
 				return
 			}
-			spec = e.R.forFunc(callee)
-		}
-	}
-	if spec != nil {
-		if spec.Pure {
-			return
-		}
-		if !spec.HasAssigns {
-			ws.all = true
-			return
-		}
-		sig := c.Signature()
-		names, all := e.assignCompNames(spec, sig, callee)
-		if all {
-			ws.all = true
-		}
-		for _, n := range names {
-			ws.names[n] = true
 		}
 		return
 	}
-	if callee != nil && inRepo(callee) && len(callee.Blocks) > 0 && depth < 6 && !seen[callee] {
+	callee := c.StaticCallee()
+	if callee == nil {
+		if mc, ok := c.Value.(*ssa.MakeClosure); ok {
+			callee = mc.Fn.(*ssa.Function)
+		}
+	}
+	if callee == nil {
+		ws.all = true // call through an unknown function value
+		return
+	}
+	e.funcWrites(callee, c, ws, depth, seen)
+}
+
+func (e *Enc) specWrites(spec *FuncSpec, sig *types.Signature, callee *ssa.Function, ws *writeSet) {
+	if spec.Pure {
+		return
+	}
+	if !spec.HasAssigns {
+		ws.all = true
+		return
+	}
+	names, all := e.assignCompNames(spec, sig, callee)
+	if all {
+		ws.all = true
+	}
+	for _, n := range names {
+		ws.names[n] = true
+	}
+}
+
+func (e *Enc) funcWrites(callee *ssa.Function, c *ssa.CallCommon, ws *writeSet, depth int, seen map[*ssa.Function]bool) {
+	if isLockNoop(callee.String()) {
+		return
+	}
+	if spec := e.R.forFunc(callee); spec != nil {
+		e.specWrites(spec, callee.Signature, callee, ws)
+		return
+	}
+	if inRepo(callee) && len(callee.Blocks) > 0 {
+		if seen[callee] {
+			return
+		}
 		seen[callee] = true
 		for _, b := range callee.Blocks {
 			for _, ins := range b.Instrs {
@@ -266,30 +330,70 @@ func (e *Enc) callWrites(c *ssa.CallCommon, ws *writeSet, depth int, seen map[*s
 				}
 			}
 		}
-		for _, af := range callee.AnonFuncs {
-			_ = af
-		}
-		delete(seen, callee)
 		return
 	}
-	if callee != nil && !inRepo(callee) {
+	if !inRepo(callee) {
 		// external code: cannot write repo struct fields unless given a callback / interface
-		for _, a := range c.Args {
-			switch a.Type().Underlying().(type) {
+		sig := callee.Signature
+		check := func(t types.Type) bool {
+			switch t.Underlying().(type) {
 			case *types.Signature:
+				return true
+			case *types.Interface:
+				return !isErrorType(t)
+			}
+			return false
+		}
+		for i := 0; i < sig.Params().Len(); i++ {
+			if check(sig.Params().At(i).Type()) {
 				ws.all = true
 				return
-			case *types.Interface:
-				if !isErrorType(a.Type()) {
-					ws.all = true
-					return
-				}
+			}
+		}
+		if sig.Recv() != nil {
+			if _, isIface := sig.Recv().Type().Underlying().(*types.Interface); isIface {
+				ws.all = true
+				return
 			}
 		}
 		ws.extern = true
 		return
 	}
 	ws.all = true
+}
+
+// implementations: concrete methods that an interface method call can dispatch to (CHA).
+func (r *Resolver) implementations(recv types.Type, m *types.Func) ([]*ssa.Function, bool) {
+	iface, ok := recv.Underlying().(*types.Interface)
+	if !ok {
+		return nil, false
+	}
+	key := typeKey(recv) + "." + m.Name()
+	if r.implCache == nil {
+		r.implCache = map[string][]*ssa.Function{}
+		r.implOK = map[string]bool{}
+		r.methodsByName = map[string][]*ssa.Function{}
+		for _, fn := range r.allFuncs {
+			if fn.Signature.Recv() != nil && fn.Synthetic == "" {
+				r.methodsByName[fn.Name()] = append(r.methodsByName[fn.Name()], fn)
+			}
+		}
+	}
+	if v, ok := r.implCache[key]; ok {
+		return v, r.implOK[key]
+	}
+	var out []*ssa.Function
+	for _, fn := range r.methodsByName[m.Name()] {
+		rt := fn.Signature.Recv().Type()
+		if types.Implements(rt, iface) || types.Implements(types.NewPointer(rt), iface) {
+			out = append(out, fn)
+		}
+	}
+	good := len(out) > 0 && len(out) <= 40
+	sort.Slice(out, func(i, j int) bool { return out[i].String() < out[j].String() })
+	r.implCache[key] = out
+	r.implOK[key] = good
+	return out, good
 }
 
 func isErrorType(t types.Type) bool {
@@ -334,10 +438,13 @@ func (f *FnEnc) call(c *ssa.CallCommon, v ssa.Value, pos token.Pos) Val {
 		if spec := e.R.forMethod(c.Method); spec != nil {
 			return f.applyContract(spec, c.Method.Type().(*types.Signature), c.Method.FullName(), args, append([]ssa.Value{c.Value}, c.Args...), true, hint, pos)
 		}
-		e.abstracted[fnDisplayName(f.fn)+": dynamic call "+c.Method.FullName()+" havocs the heap"] = true
+		e.abstracted[fnDisplayName(f.fn)+": dynamic call "+c.Method.FullName()+": write set of its implementations is havocked"] = true
 		f.checkEscapes(args, c.Method.FullName())
 		f.fieldPtrArgs(args, sig, c.Method.FullName())
-		f.st = e.havocState(f.st, nil)
+		ws := writeSet{names: map[string]bool{}}
+		e.callWrites(c, &ws, 0, map[*ssa.Function]bool{})
+		f.argAliasWrites(args, c, &ws)
+		f.st = f.havocWrites(ws)
 		return f.resultVal(sig, hint)
 	}
 	var callee *ssa.Function
@@ -356,7 +463,7 @@ func (f *FnEnc) call(c *ssa.CallCommon, v ssa.Value, pos token.Pos) Val {
 		args := f.argVals(c)
 		f.checkEscapes(args, "function value")
 		f.fieldPtrArgs(args, sig, "function value")
-		f.st = e.havocState(f.st, nil)
+		f.st = f.havocWrites(writeSet{all: true})
 		return f.resultVal(sig, hint)
 	}
 	name := callee.String()
@@ -374,14 +481,15 @@ func (f *FnEnc) call(c *ssa.CallCommon, v ssa.Value, pos token.Pos) Val {
 	}
 	f.checkEscapes(args, name)
 	f.fieldPtrArgs(args, sig, name)
+	ws := writeSet{names: map[string]bool{}}
+	e.callWrites(c, &ws, 0, map[*ssa.Function]bool{})
+	f.argAliasWrites(args, c, &ws)
 	if inRepo(callee) || len(frees) > 0 {
-		e.abstracted[fnDisplayName(f.fn)+": call "+fnDisplayName(callee)+" (no contract, not inlined) havocs the heap"] = true
-		f.st = e.havocState(f.st, nil)
+		e.abstracted[fnDisplayName(f.fn)+": call "+fnDisplayName(callee)+" (no contract, not inlined): its transitive write set is havocked"] = true
+		f.st = f.havocWrites(ws)
 		return f.resultVal(sig, hint)
 	}
 	// external function without contract
-	ws := writeSet{names: map[string]bool{}}
-	e.callWrites(c, &ws, 3, map[*ssa.Function]bool{})
 	e.abstracted[fnDisplayName(f.fn)+": external call "+name+" (no contract)"] = true
 	if f.fieldPtrArgs(args, sig, name) {
 		ws.all = true
@@ -391,12 +499,136 @@ func (f *FnEnc) call(c *ssa.CallCommon, v ssa.Value, pos token.Pos) Val {
 			ws.all = true // the slice may view a repo array field; the callee may write through it
 		}
 	}
-	if ws.all {
-		f.st = e.havocState(f.st, nil)
-	} else {
-		f.st = e.havocState(f.st, func(c *Comp) bool { return c.Repo })
-	}
+	f.st = f.havocWrites(ws)
 	return f.resultVal(sig, hint)
+}
+
+// argAliasWrites: arguments that alias memory the type-based write set would not name: the address
+// of a scalar struct field (the callee writes it as a *T cell) and slices over viewed arrays.
+func (f *FnEnc) argAliasWrites(args []Val, c *ssa.CallCommon, ws *writeSet) {
+	for _, a := range args {
+		if fp, ok := a.(FieldPtr); ok {
+			ft := structOf(fp.S).Field(fp.Field).Type()
+			for _, l := range f.e.leavesSafe(ft) {
+				ws.names["F "+structKey(fp.S)+" "+structOf(fp.S).Field(fp.Field).Name()+l.path] = true
+			}
+		}
+	}
+	for _, a := range c.Args {
+		if sl, ok := a.Type().Underlying().(*types.Slice); ok && f.viewElem[typeKey(sl.Elem().Underlying())] {
+			ws.all = true
+		}
+	}
+}
+
+// havocWrites havocs exactly the components of a write set.
+// localCompsHit: does the write set touch the components holding local variable a?
+func (f *FnEnc) localCompsHit(t types.Type, ws writeSet) bool {
+	if ws.all {
+		return true
+	}
+	names := map[string]bool{}
+	f.e.allFieldCompNames(t, names)
+	for n := range names {
+		if ws.names[n] || ws.fresh[n] {
+			return true
+		}
+		if ws.extern && !strings.HasPrefix(n, "F "+modPath) {
+			return true
+		}
+	}
+	return false
+}
+
+func (f *FnEnc) havocWrites(ws writeSet) *State {
+	if dbg := os.Getenv("VCHECK_WS"); dbg != "" {
+		for _, d := range strings.Split(dbg, ";") {
+			fmt.Fprintf(os.Stderr, "havoc in %s at %s: all=%v extern=%v names[%s]=%v fresh=%v\n", fnDisplayName(f.fn), f.e.posStr(f.curPos), ws.all, ws.extern, d, ws.names[d], ws.fresh[d])
+		}
+	}
+	saved := f.saveLocalsFor(ws)
+	var st *State
+	if ws.all {
+		st = f.e.havocState(f.st, nil)
+	} else {
+		names, fresh, ext := ws.names, ws.fresh, ws.extern
+		st = f.e.havocState2(f.st,
+			func(c *Comp) bool { return !names[c.Name] && !fresh[c.Name] && !(ext && !c.Repo) },
+			func(c *Comp) bool { return !names[c.Name] && fresh[c.Name] && !(ext && !c.Repo) })
+	}
+	f.restoreLocals(st, saved)
+	return st
+}
+
+type savedLocal struct {
+	ref Term
+	t   types.Type
+	v   Val
+}
+
+// saveLocals reads the local variables whose address has not escaped: no callee can write them.
+func (f *FnEnc) saveLocals() []savedLocal {
+	return f.saveLocalsFor(writeSet{all: true})
+}
+
+func (f *FnEnc) saveLocalsFor(ws writeSet) []savedLocal {
+	var out []savedLocal
+	if f.parent != nil {
+		out = f.parent.saveLocalsAt(ws, f.st)
+	}
+	return append(out, f.saveLocalsAt(ws, f.st)...)
+}
+
+func (f *FnEnc) saveLocalsAt(ws writeSet, st *State) []savedLocal {
+	var out []savedLocal
+	if f.parent != nil && st != f.st {
+		out = f.parent.saveLocalsAt(ws, st)
+	}
+	for _, a := range f.locals {
+		if f.escaped[a] {
+			continue
+		}
+		if !f.localCompsHit(derefType(a.Type()), ws) {
+			continue // its components are not havocked at all
+		}
+		ref, ok := f.vals[a].(Term)
+		if !ok {
+			continue
+		}
+		t := derefType(a.Type())
+		if f.e.isBigInt(t) || (!isRepoType(t) && f.e.isStructT(t)) {
+			continue
+		}
+		if _, isArr := t.Underlying().(*types.Array); isArr && f.isLocalElemwiseArray(a) {
+			continue
+		}
+		func() {
+			defer func() {
+				if r := recover(); r != nil {
+					if _, ok := r.(unsupported); !ok {
+						panic(r)
+					}
+				}
+			}()
+			out = append(out, savedLocal{ref, t, f.e.loadAt(st, ref, t)})
+		}()
+	}
+	return out
+}
+
+func (f *FnEnc) restoreLocals(st *State, saved []savedLocal) {
+	for _, s := range saved {
+		func() {
+			defer func() {
+				if r := recover(); r != nil {
+					if _, ok := r.(unsupported); !ok {
+						panic(r)
+					}
+				}
+			}()
+			f.e.storeAt(st, s.ref, s.t, s.v)
+		}()
+	}
 }
 
 func (f *FnEnc) valOrNil(v ssa.Value) (r Val) {
@@ -459,6 +691,7 @@ func (f *FnEnc) inline(callee *ssa.Function, spec *FuncSpec, args, frees []Val) 
 	e.inlineStack = append(e.inlineStack, callee)
 	defer func() { e.inlineStack = e.inlineStack[:len(e.inlineStack)-1] }()
 	sub := e.newFnEnc(callee, spec, f.depth+1, false)
+	sub.parent = f
 	res := sub.run(f.reach, args, frees, f.st)
 	f.reach = res.reach
 	f.st = res.st
@@ -609,7 +842,7 @@ func (f *FnEnc) applyContract(spec *FuncSpec, sig *types.Signature, name string,
 	_ = oldAlloc
 	// frame
 	if !spec.HasAssigns {
-		f.st = e.havocState(f.st, nil)
+		f.st = f.havocWrites(writeSet{all: true})
 	} else {
 		actx := &SpecCtx{e: e, f: f, vars: post, st: pre, old: pre, pkg: f.pkgOf(spec), srcArgs: ctx.srcArgs}
 		for _, tg := range f.assignTargets(spec, actx) {
@@ -632,6 +865,7 @@ type assignTarget struct {
 	whole  bool
 	// whole-component havoc that leaves every object allocated before this reference untouched
 	olderThan Term
+	allBut    map[string]bool // comp == nil: havoc everything except these components
 }
 
 func (tg assignTarget) indices() []Term {
@@ -683,7 +917,16 @@ func (f *FnEnc) assignTargets(spec *FuncSpec, ctx *SpecCtx) []assignTarget {
 func (f *FnEnc) havocTarget(tg assignTarget) {
 	e := f.e
 	if tg.comp == nil {
-		f.st = e.havocState(f.st, nil)
+		if tg.allBut != nil {
+			keep := tg.allBut
+			saved := f.saveLocals()
+			alloc := f.st.Alloc
+			f.st = e.havocState(f.st, func(c *Comp) bool { return keep[c.Name] })
+			f.restoreLocals(f.st, saved)
+			_ = alloc
+			return
+		}
+		f.st = f.havocWrites(writeSet{all: true})
 		return
 	}
 	c := tg.comp
@@ -823,6 +1066,13 @@ func (f *FnEnc) checkPost(results []Val, pos token.Pos) {
 	}
 	if res != nil {
 		bindResults(sig, res, vars)
+	}
+	if dbg := os.Getenv("VCHECK_WS"); dbg != "" {
+		for _, d := range strings.Split(dbg, ";") {
+			if c := e.comps[d]; c != nil {
+				fmt.Fprintf(os.Stderr, "at return %d: %s: final=%s entry=%s\n", len(f.rets), d, e.lookup(f.st, c).S, e.lookup(f.entry, c).S)
+			}
+		}
 	}
 	ctx := &SpecCtx{e: e, f: f, vars: vars, st: f.st, old: f.entry, pkg: f.fnPkg(), hdrBlock: f.blk, atReturn: true}
 	for i, c := range f.spec.Ensures {
@@ -1092,8 +1342,8 @@ func (f *FnEnc) builtinAppend(c *ssa.CallCommon, hint string) Val {
 	if comps == nil || isStr {
 		names := map[string]bool{}
 		e.allFieldCompNames(st.Elem(), names)
-		f.st = e.havocState(f.st, func(c *Comp) bool { return !names[c.Name] })
-		f.st.Alloc = e.define("alloc", tAdd(oldAlloc, tInt(1)))
+		f.st = f.havocWrites(writeSet{names: names})
+		f.st.Alloc = e.define("alloc", tAdd(f.st.Alloc, tInt(1)))
 		return r
 	}
 	for _, cp := range comps {
@@ -1105,7 +1355,7 @@ func (f *FnEnc) builtinAppend(c *ssa.CallCommon, hint string) Val {
 			s.Len.S, nv.S, r.Base.S, r.Off.S, old.S, s.Base.S, s.Off.S, r.Base.S, r.Off.S), SBool})
 		e.fact(Term{fmt.Sprintf("(forall ((j Int)) (! (=> (and (<= %s j) (< j (+ %s %s))) (= (select %s (elemref %s (idxadd %s j))) (select %s (elemref %s (idxadd %s (- j %s)))))) :pattern ((elemref %s (idxadd %s j)))))",
 			s.Len.S, s.Len.S, tl.S, nv.S, r.Base.S, r.Off.S, old.S, t.Base.S, t.Off.S, s.Len.S, r.Base.S, r.Off.S), SBool})
-		e.fact(Term{fmt.Sprintf("(forall ((p Int)) (! (=> (not (and (= (elembase p) %s) (<= (+ %s %s) (elemidx p)) (< (elemidx p) (+ %s %s)))) (= (select %s p) (select %s p))) :pattern ((select %s p))))",
+		e.fact(Term{fmt.Sprintf("(forall ((p Int)) (! (=> (not (and (= (rtag p) 1) (= (elembase p) %s) (<= (+ %s %s) (elemidx p)) (< (elemidx p) (+ %s %s)))) (= (select %s p) (select %s p))) :pattern ((select %s p))))",
 			r.Base.S, r.Off.S, ite0(freshC, s.Len).S, r.Off.S, r.Len.S, nv.S, old.S, nv.S), SBool})
 		f.st.H[cp.Name] = nv
 	}
@@ -1136,7 +1386,7 @@ func (f *FnEnc) builtinCopy(c *ssa.CallCommon, hint string) Val {
 	if comps == nil || !srcIsSlice {
 		names := map[string]bool{}
 		e.allFieldCompNames(st.Elem(), names)
-		f.st = e.havocState(f.st, func(c *Comp) bool { return !names[c.Name] })
+		f.st = f.havocWrites(writeSet{names: names})
 		return n
 	}
 	for _, cp := range comps {
@@ -1145,9 +1395,93 @@ func (f *FnEnc) builtinCopy(c *ssa.CallCommon, hint string) Val {
 		e.compTypingFact(cp, nv, f.st.Alloc)
 		e.fact(Term{fmt.Sprintf("(forall ((i Int)) (! (=> (and (<= 0 i) (< i %s)) (= (select %s (elemref %s (idxadd %s i))) (select %s (elemref %s (idxadd %s i))))) :pattern ((elemref %s (idxadd %s i)))))",
 			n.S, nv.S, dst.Base.S, dst.Off.S, old.S, src.Base.S, src.Off.S, dst.Base.S, dst.Off.S), SBool})
-		e.fact(Term{fmt.Sprintf("(forall ((p Int)) (! (=> (not (and (= (elembase p) %s) (<= %s (elemidx p)) (< (elemidx p) (+ %s %s)))) (= (select %s p) (select %s p))) :pattern ((select %s p))))",
+		e.fact(Term{fmt.Sprintf("(forall ((p Int)) (! (=> (not (and (= (rtag p) 1) (= (elembase p) %s) (<= %s (elemidx p)) (< (elemidx p) (+ %s %s)))) (= (select %s p) (select %s p))) :pattern ((select %s p))))",
 			dst.Base.S, dst.Off.S, dst.Off.S, n.S, nv.S, old.S, nv.S), SBool})
 		f.st.H[cp.Name] = nv
 	}
 	return n
+}
+
+// findNonNilGlobals: package-level variables of pointer/interface type that are assigned only by
+// package initialisers and only with values that cannot be nil (errors.New(...), &T{...},
+// big.NewInt(...)). Loads from them yield non-nil values at any time.
+func (r *Resolver) findNonNilGlobals() {
+	r.nonNilGlobals = map[*ssa.Global]bool{}
+	r.bigGlobals = map[*ssa.Global]*big.Int{}
+	bigInit := map[*ssa.Global]*big.Int{}
+	bad := map[*ssa.Global]bool{}
+	good := map[*ssa.Global]bool{}
+	nonNilCall := func(v ssa.Value) bool {
+		switch x := v.(type) {
+		case *ssa.Alloc:
+			return true
+		case *ssa.MakeInterface:
+			if _, ok := x.X.(*ssa.Alloc); ok {
+				return true
+			}
+			if c, ok := x.X.(*ssa.Call); ok {
+				if callee := c.Call.StaticCallee(); callee != nil {
+					return strings.HasPrefix(callee.String(), "errors.New") || strings.HasPrefix(callee.String(), "fmt.Errorf")
+				}
+			}
+		case *ssa.Call:
+			if callee := x.Call.StaticCallee(); callee != nil {
+				switch callee.String() {
+				case "errors.New", "fmt.Errorf", "github.com/pkg/errors.New", "github.com/pkg/errors.Errorf", "math/big.NewInt":
+					return true
+				}
+			}
+		case *ssa.MakeMap:
+			return true
+		}
+		return false
+	}
+	for _, fn := range r.allFuncs {
+		isInit := fn.Name() == "init" || strings.HasPrefix(fn.Name(), "init#")
+		for _, b := range fn.Blocks {
+			for _, ins := range b.Instrs {
+				st, ok := ins.(*ssa.Store)
+				if !ok {
+					// taking the address of the global for other purposes disqualifies it
+					for _, op := range ins.Operands(nil) {
+						if g, ok := (*op).(*ssa.Global); ok {
+							if _, isLoad := ins.(*ssa.UnOp); !isLoad {
+								bad[g] = true
+							}
+						}
+					}
+					continue
+				}
+				g, ok := st.Addr.(*ssa.Global)
+				if !ok {
+					if g2, ok := st.Val.(*ssa.Global); ok {
+						bad[g2] = true
+					}
+					continue
+				}
+				if isInit && nonNilCall(st.Val) {
+					good[g] = true
+					if call, ok := st.Val.(*ssa.Call); ok {
+						if callee := call.Call.StaticCallee(); callee != nil && callee.String() == "math/big.NewInt" {
+							if k, ok := call.Call.Args[0].(*ssa.Const); ok {
+								if v, ok := constBig(k); ok {
+									bigInit[g] = v
+								}
+							}
+						}
+					}
+				} else {
+					bad[g] = true
+				}
+			}
+		}
+	}
+	for g := range good {
+		if !bad[g] {
+			r.nonNilGlobals[g] = true
+			if v, ok := bigInit[g]; ok {
+				r.bigGlobals[g] = v
+			}
+		}
+	}
 }
